@@ -363,6 +363,18 @@ def run(res):
                                        expected='ValueError before any fit' if expected else 'accepted', observed=repr(rec['error'])))
         cases.append('(ArgCase %s %s %s %s)' % (flit(q), flit(t), common.zlit(mi), common.coq_bool(rejected)))
         meta.append(dict(kind='args', quantile=q, tol=t, max_iter=mi))
+    # (d') a fitted model validates its arguments before the loop even when no refit is needed (Gen_fq_validated_before_loop)
+    for bad, wv in (('nan weight', np.where(np.arange(20) == 3, np.nan, 1.0)), ('short weights', np.ones(19)), ('valid weights', np.ones(20))):
+        gam = pygam.ExpectileGAM(pygam.s(0, n_splines=5))
+        quiet(gam.fit, Xa.copy(), ya.copy())
+        rec = traced_fit_quantile(gam, Xa.copy(), ya.copy(), 0.5, 3, 1.0, wv)       # tol = 1: the first ratio is within tol, nothing is refitted
+        rejected = isinstance(rec['error'], ValueError) and not rec['ratios'] and not rec['fits']
+        res.case(('prevalidation', bad), nontrivial=True)
+        res.count('fitted-model validation: ' + ('rejected' if rejected else 'accepted'))
+        if rejected != (bad != 'valid weights') or (rec['error'] is not None and not rejected):
+            res.violations.append(dict(what='fit_quantile on a fitted model: validation of the weights before the bisection', finding=None,
+                                       input=dict(weights=bad, quantile=0.5, tol=1.0, max_iter=3), expected='ValueError before any ratio is evaluated' if bad != 'valid weights' else 'accepted',
+                                       observed=repr(rec['error'])))
     # (e) regression probes for the repaired S11 (witness of C18_bisect_float_saturation_stops replayed on the implementation):
     #     the call must terminate without ValueError, through the stall exit, with an expectile strictly inside (0,1)
     for variant in (0, 1):
